@@ -209,8 +209,11 @@ def get_query_argument(url, key):
     if not o.query:
         return None
 
+    # NOTE: the key may have been written percent-encoded (e.g. by add_query_argument)
+    quoted_key = unshadowed_quote(key)
+
     for q in safe_qsl_iter(o.query):
-        if key == q[0]:
+        if key == q[0] or quoted_key == q[0]:
             if q[1] is None:
                 return True
             return q[1]
